@@ -1,13 +1,13 @@
 package rules
 
 import (
-	"regexp"
-	"os"
 	"fmt"
 	"go/ast"
 	"go/constant"
 	"go/token"
 	"go/types"
+	"os"
+	"regexp"
 	"sort"
 	"strings"
 
